@@ -417,8 +417,8 @@ class Tr:
         if self.fn.rtype != 'optq':
             fail(s, "loop in a function that does not return an optional number")
         after = self.block(rest, env)
-        return (f"match first_answer {accept} (ce (u_cls {cu})) {q} {u} with\n"
-                f"| Some a0 => Ok (Some a0)\n| None => {after}\nend")
+        return (f"bind (first_answer {accept} (ce (u_cls {cu})) {q} {u}) (fun r0 =>\n"
+                f"match r0 with\n| Some a0 => Ok (Some a0)\n| None => {after}\nend)")
 
     def ends(self, stmts):
         if not stmts:
@@ -457,13 +457,16 @@ Open Scope Z_scope.
 Definition accept_not_none (a : option Q) : bool := match a with Some _ => true | None => false end.
 Definition accept_truthy (a : option Q) : bool :=
   match a with Some x => negb (qzero x) | None => false end.
-Fixpoint first_answer (accept : option Q -> bool) (cs : list table) (q : qty) (to : unit) : option Q :=
-  match cs with
-  | [] => None
-  | t :: r => let a := table_conv t q to in
-              if accept a then a else first_answer accept r q to
-  end.
+'''
 
+# emitted after the translated Converter.__call__ (the loop calls the converters)
+FIRST_ANSWER = '''Fixpoint first_answer (accept : option Q -> bool) (cs : list table) (q : qty) (to : unit)
+    : res (option Q) :=
+  match cs with
+  | [] => Ok None
+  | t :: r => bind (table_call_impl t q to) (fun a =>
+              if accept a then Ok a else first_answer accept r q to)
+  end.
 '''
 
 
@@ -472,7 +475,9 @@ def generate(path):
     import os
     trees = {}
     out = [PRELUDE]
-    for fn in FUNCS:
+    for fn in sorted(FUNCS, key=lambda f: f.file != 'converter.py'):
+        if fn.file != 'converter.py' and FIRST_ANSWER not in out:
+            out.append(FIRST_ANSWER)
         fp = os.path.join(os.path.dirname(path), fn.file)
         if fp not in trees:
             trees[fp] = ast.parse(open(fp, encoding='utf-8').read())
